@@ -45,6 +45,9 @@ class Contract:
         self.module = kw.pop("module", None)               # for plain functions: module path
         self.kind = kw.pop("kind", "method")               # method | function | classmethod | staticmethod | lemma
         self.ghost = dict(kw.pop("ghost", {}))             # extra ghost parameters name -> type
+        # ghost arguments this function passes at its call sites: callee key -> {ghost name: specification expression
+        # evaluated in the caller's state at the call}
+        self.ghost_args = dict(kw.pop("ghost_args", {}))
         self.properties = list(kw.pop("properties", []))   # property ids this contract serves
         self.trusted = bool(kw.pop("trusted", False))      # assumed, body not verified (listed in evidence)
         self.trusted_reason = kw.pop("trusted_reason", "")
